@@ -24,12 +24,21 @@ def gen_case(seed, extra=None):
         # several programs normalised and typed one after the other in the same interpreter
         seq = [first]
         for i in range(rng.choice([1, 1, 2])):
-            if rng.random() < 0.5:
+            g2i = gen.guard_to_if(first["prog"], rng) if rng.random() < 0.35 else None
+            if g2i is not None:
+                # the same assignments with the loop guard turned into an ordinary branch
+                c = copy.deepcopy(first)
+                c["prog"] = g2i
+                c["seed"] = seed + 1 + i
+                seq.append(c)
+            elif rng.random() < 0.5:
                 # the same loop with other initial values
                 c = copy.deepcopy(first)
                 declared = {t[0] for t in c["prog"].get("types", [])}    # declared types are taken as given: keep them true
                 for st in c["prog"]["init"]:
-                    if st[0] == "assign" and st[2][0] == "num" and st[1] not in declared:
+                    # flags (0/1 initialised) keep their value: squaring templates applied to a "flag" holding 3 make the
+                    # value sets explode and Polar's typer run for minutes
+                    if st[0] == "assign" and st[2][0] == "num" and st[1] not in declared and st[2][1] not in ("0", "1"):
                         st[2] = gen.num(rng.choice([0, 1, 2, 3, 5, -1, -3]))
                 c["seed"] = seed + 1 + i
                 seq.append(c)
@@ -40,6 +49,11 @@ def gen_case(seed, extra=None):
 
 
 def _gen_one(rng, seed):
+    if rng.random() < 0.08:
+        fp = rng.choice([1, 1, 2, 2, 3])
+        prog = gen.delay_line_c05(rng, fp + rng.choice([0, 1, 1, 2]))
+        return {"kind": "ir-exec", "prog": prog, "symvals": {}, "transform_categoricals": False, "fp_iterations": fp,
+                "iterations": rng.choice([6, 8, 10]), "runs": 4, "policies": ["mixed"], "seed": seed, "style": "frac", "explicit_last": True}
     prog = gen.gen_c05_program(rng)
     symvals = {}
     if rng.random() < 0.25 and gen.symbolise(prog, rng, "p"):
@@ -104,7 +118,7 @@ def run_case(case, extra=None):
         import inputparser, program, type_inference, program.distribution  # noqa
         from . import c05, rngseam  # noqa
         _preloaded = True
-    r = world.fork_call(_run_in_child, case, timeout=300)
+    r = world.fork_call(_run_in_child, case, timeout=90)
     if r.get("status") in ("child_timeout", "child_died"):
         return {"outcome": "timeout" if r["status"] == "child_timeout" else "harness_error", "kind": case["kind"], "trace": r["status"]}
     if r.get("status") == "harness_error":
@@ -113,13 +127,25 @@ def run_case(case, extra=None):
 
 
 def _sig(p):
+    if p.get("downstream_of_f3") and p.get("source_guard_false"):
+        # computed, after guard exit, from a value that is out of type through known finding F3: same root cause
+        return (True, True, True)
     return (bool(p.get("via_default")), bool(p.get("source_guard_false")), bool(p.get("default_is_other_var")))
+
+
+def _lead(res):
+    """the problem that names the violation: one that does not have the shape of known finding F3, if there is any"""
+    ps = res["problems"]
+    for p in ps:
+        if _sig(p) != (True, True, True):
+            return p
+    return ps[0]
 
 
 def vclass(res):
     if res.get("outcome") != "violation":
         return None
-    return "out-of-type:" + ",".join(str(int(b)) for b in _sig(res["problems"][0]))
+    return "out-of-type:" + ",".join(str(int(b)) for b in _sig(_lead(res)))
 
 
 def finding_signature(res, case):
@@ -130,7 +156,7 @@ def finding_signature(res, case):
 
 
 def describe_violation(res):
-    p = res["problems"][0]
+    p = _lead(res)
     return (f"variable {p['var']} holds {p['value']} outside inferred type {p['type']} at {p['phase']} iteration {p['iteration']} "
             f"stmt `{p['assignment']}` (via_default={p['via_default']}, source guard false={p['source_guard_false']}, "
             f"default is other var={p['default_is_other_var']}); exact evaluator: {p.get('exact_value')}\nnormalised program:\n{res.get('normalized')}")
@@ -209,7 +235,7 @@ def shrink(case, extra=None):
     else:
         cur["scripts"] = base["scripts"]
         # keep only the run that violates
-        bad_run = base["problems"][0].get("run", 0)
+        bad_run = _lead(base).get("run", 0)
         cand = copy.deepcopy(cur)
         cand["scripts"] = [base["scripts"][bad_run]]
         r = run_case(cand)
